@@ -107,6 +107,9 @@ func (e *Exec) call(fr *Frame, st *State, x *ssa.Call) (Value, bool) {
 		e.exactUse(fr, st, a, "arg")
 	}
 	e.argsEscape(fr, st, c)
+	if os.Getenv("SLIPVC_DEBUG") == "havoc" {
+		fmt.Fprintf(os.Stderr, "opaque call %s in %s mods=%v all=%v\n", callee.String(), FuncName(fr.fn), len(e.P.ModSetOf(callee).Comps), e.P.ModSetOf(callee).All)
+	}
 	e.havoc(st, e.P.ModSetOf(callee))
 	e.bumpAlloc(st)
 	return e.callResult(st, x), true
@@ -535,6 +538,10 @@ func (e *Exec) knownCall(fr *Frame, st *State, x *ssa.Call, callee *ssa.Function
 		base := e.term(fr, st, x.Call.Args[2])
 		e.declDigits()
 		n := App(SInt, "ndigbig", recv, base)
+		// shape of the text (assumed): a '-' first exactly for negative values, a digit after it, never a '+'
+		bv := e.bigGet(st, recv)
+		d0 := App(SInt, "digbig", recv, base, IntLit(0))
+		e.assume(st.pc, And(Eq(Eq(d0, IntLit(45)), Lt(bv, IntLit(0))), Not(Eq(d0, IntLit(43))), Implies(Lt(bv, IntLit(0)), Le(IntLit(2), n))))
 		return e.appendAbstract(st, x, b, types.Typ[types.Uint8], n, func(h *Term, k string) string {
 			return fmt.Sprintf("(digbig %s %s %s)", recv.S, base.S, k)
 		}, false), true, true
@@ -626,6 +633,9 @@ func (e *Exec) declDigits() {
 	e.emit("(declare-fun digbig (Int Int Int) Int)")
 	e.emit("(assert (forall ((v Int) (b Int)) (! (and (<= 1 (ndig v b)) (<= (ndig v b) 65)) :pattern ((ndig v b)))))")
 	e.emit("(assert (forall ((v Int) (b Int)) (! (and (<= 1 (ndigbig v b)) (<= (ndigbig v b) 1000000)) :pattern ((ndigbig v b)))))")
+	// shape of the text strconv.AppendInt produces (assumed): a '-' first exactly for negative values,
+	// at least one digit after it, never a '+'
+	e.emit("(assert (forall ((v Int) (b Int)) (! (and (= (= (dig v b 0) 45) (< v 0)) (not (= (dig v b 0) 43)) (=> (< v 0) (<= 2 (ndig v b)))) :pattern ((ndig v b)))))")
 
 
 }
